@@ -55,6 +55,8 @@ def value(cls, f, md, hint, h, depth):
 def single(md, t, h, depth):
     if md.proto_type == "enum":
         members = list(t)
+        if h % 3 == 0:
+            return t.try_value(90 + h % 7)        # enums are open: a number the enum does not define is a value too
         return members[h % len(members)]
     if md.proto_type == "message":
         if t is datetime:
